@@ -5,8 +5,10 @@ package main
 // (c18_roles.go).
 
 import (
+	"fmt"
 	"go/token"
 	"go/types"
+	"os"
 	"sort"
 	"strings"
 
@@ -49,7 +51,7 @@ func instrReaches(a, b ssa.Instruction) bool {
 }
 
 // c18WritesState: fn (or a static in-module callee, or a closure of it) stores to a field of the state type.
-func c18WritesState(p *Prog, fn *ssa.Function, tkey string, seen map[*ssa.Function]bool) bool {
+func c18WritesState(p *Prog, fn *ssa.Function, stypes map[string]bool, seen map[*ssa.Function]bool) bool {
 	if seen[fn] {
 		return false
 	}
@@ -61,17 +63,17 @@ func c18WritesState(p *Prog, fn *ssa.Function, tkey string, seen map[*ssa.Functi
 		}
 		switch x := in.(type) {
 		case *ssa.Store:
-			if fa, ok := x.Addr.(*ssa.FieldAddr); ok && fieldIDOfAddr(fa).Type == tkey {
+			if fa, ok := x.Addr.(*ssa.FieldAddr); ok && stypes[fieldIDOfAddr(fa).Type] {
 				found = true
 			}
 		case ssa.CallInstruction:
-			if f := staticCallee(x); f != nil && p.InModule(f) && c18WritesState(p, f, tkey, seen) {
+			if f := staticCallee(x); f != nil && p.InModule(f) && c18WritesState(p, f, stypes, seen) {
 				found = true
 			}
 		}
 	})
 	for _, a := range fn.AnonFuncs {
-		if c18WritesState(p, a, tkey, seen) {
+		if c18WritesState(p, a, stypes, seen) {
 			found = true
 		}
 	}
@@ -94,13 +96,15 @@ func c18CollectGraphOps(g *c18Graph, cfg *c18Cfg) (ops []*c18Op, deferred []*c18
 	unknown = append(unknown, g.unknown...)
 	for _, fr := range g.frames {
 		tt.enter(fr)
-		ds, dunk := c18CollectDeferred(p, tt, fr.fn)
-		for _, d := range ds {
-			d.Fr = fr
-			d.Op.cfg = cfg
+		if fr.base == nil {
+			ds, dunk := c18CollectDeferred(p, tt, fr.fn)
+			for _, d := range ds {
+				d.Fr = fr
+				d.Op.cfg = cfg
+			}
+			deferred = append(deferred, ds...)
+			unknown = append(unknown, dunk...)
 		}
-		deferred = append(deferred, ds...)
-		unknown = append(unknown, dunk...)
 		allInstrs(fr.fn, func(in ssa.Instruction) {
 			ci, ok := in.(ssa.CallInstruction)
 			if !ok {
@@ -114,7 +118,7 @@ func c18CollectGraphOps(g *c18Graph, cfg *c18Cfg) (ops []*c18Op, deferred []*c18
 				return
 			}
 			obj := calleeObj(ci)
-			tgt, dynamic := g.target(ci)
+			tgt, dynamic := g.target(fr, ci)
 			if obj == nil && tgt != nil {
 				obj, _ = tgt.Object().(*types.Func) // call through a construction-time func field
 			}
@@ -222,21 +226,15 @@ func c18CheckWriterCore(p *Prog, r *Report, fn *ssa.Function, name string, cfg *
 	tkey := ""
 	if n := c18RecvNamed(fn); n != nil {
 		tkey = namedKey(n)
-		st := structOf(n)
-		for i := 0; st != nil && i < st.NumFields(); i++ {
-			if (FieldID{tkey, st.Field(i).Name()}).String() == cfg.Prev {
-				if b, ok := st.Field(i).Type().Underlying().(*types.Basic); ok && b.Kind() == types.String {
-					cfg.prevIsString = true
-				}
-			}
-		}
 	}
+	cfg.prevIsString = c18FieldIsString(p, tkey, cfg.Prev)
+	stateTypes := c18StateTypes(p, tkey)
 	relMemo := map[*ssa.Function]bool{}
 	relevant := func(f *ssa.Function) bool {
 		if v, ok := relMemo[f]; ok {
 			return v
 		}
-		v := c18TouchesFS(p, f, map[*ssa.Function]bool{}) || (tkey != "" && c18WritesState(p, f, tkey, map[*ssa.Function]bool{}))
+		v := c18TouchesFS(p, f, map[*ssa.Function]bool{}) || (tkey != "" && c18WritesState(p, f, stateTypes, map[*ssa.Function]bool{}))
 		relMemo[f] = v
 		return v
 	}
@@ -250,6 +248,11 @@ func c18CheckWriterCore(p *Prog, r *Report, fn *ssa.Function, name string, cfg *
 		r.Undecide("%s calls %s: a file-system effect this check does not model", name, u)
 	}
 	incomplete = len(unknown) > 0
+	if os.Getenv("KC_C18_DEBUG") == "ops" {
+		for _, o := range ops {
+			fmt.Printf("OP %s frame=%d iter=%v nodes=%d\n", o.desc(), o.Fr.id, len(o.Fr.iter), len(o.Nodes))
+		}
+	}
 	pos := func(in ssa.Instruction) string { return p.Pos(instrPos(in)) }
 	if len(g.frames) > 1 {
 		var hs []string
@@ -454,6 +457,7 @@ func c18CheckWriterCore(p *Prog, r *Report, fn *ssa.Function, name string, cfg *
 		bPrevStored             // prev was overwritten
 		bLoopDone               // the loop over the file map ran to its end
 		bPubOK                  // the publishing rename may have succeeded
+		bFlagSet                // the "a previous version is recorded" flag was set
 	)
 	opAt := map[*c18Node]*c18Op{}
 	for _, o := range ops {
@@ -482,11 +486,75 @@ func c18CheckWriterCore(p *Prog, r *Report, fn *ssa.Function, name string, cfg *
 			prevKind[n] = 2
 		}
 	}
+	// value + flag instead of a pointer: when prev is a plain string, a bool field of the state that the
+	// writer sets to true (and nothing but the constructor sets otherwise) says whether prev is recorded
+	flagField := ""
+	flagKind := map[*c18Node]int{} // 1 = set to true, 2 = set to something else
+	if cfg.prevIsString && tkey != "" {
+		cands := map[string]bool{}
+		for _, n := range g.nodes {
+			st, ok := n.in.(*ssa.Store)
+			if !ok || n.post {
+				continue
+			}
+			fa, ok := st.Addr.(*ssa.FieldAddr)
+			if !ok {
+				continue
+			}
+			id := fieldIDOfAddr(fa)
+			if b, isB := st.Val.Type().Underlying().(*types.Basic); !isB || b.Kind() != types.Bool || !stateTypes[id.Type] {
+				continue
+			}
+			cands[id.String()] = true
+		}
+		if len(cands) == 1 {
+			for k := range cands {
+				flagField = k
+			}
+		}
+		for _, n := range g.nodes {
+			st, ok := n.in.(*ssa.Store)
+			if !ok || n.post || flagField == "" {
+				continue
+			}
+			if fa, ok := st.Addr.(*ssa.FieldAddr); ok && fieldIDOfAddr(fa).String() == flagField {
+				if k, ok := st.Val.(*ssa.Const); ok && k.Value != nil && k.Value.String() == "true" {
+					flagKind[n] = 1
+				} else {
+					flagKind[n] = 2
+				}
+			}
+		}
+	}
+	if os.Getenv("KC_C18_DEBUG") == "ops" {
+		fmt.Printf("PREV %s string=%v flag=%q prevStores=%v flagStores=%v vdir=%s\n", cfg.Prev, cfg.prevIsString, flagField, len(prevKind), len(flagKind), vdir)
+		for n, k := range prevKind {
+			tt.enter(n.fr)
+			fmt.Printf("  prev store kind=%d term=%s\n", k, tt.Term(n.in.(*ssa.Store).Val))
+			tt.leave()
+		}
+	}
 	prevNilEdge := func(e *c18Edge) bool {
+		if flagField != "" {
+			// the branch on which the flag is false
+			if ifi, ok := e.from.in.(*ssa.If); ok && e.branch >= 0 {
+				cond, truth := ifi.Cond, e.branch == 0
+				for {
+					if u, ok := cond.(*ssa.UnOp); ok && u.Op == token.NOT {
+						cond, truth = u.X, !truth
+						continue
+					}
+					break
+				}
+				if id, _, ok := fieldOfValue(c18ThroughPureCall(c18Root(cond))); ok && id.String() == flagField && !truth {
+					return true
+				}
+			}
+		}
 		if !e.hasFact || !e.factNil {
 			return false
 		}
-		id, _, ok := fieldOfValue(e.factVal)
+		id, _, ok := fieldOfValue(c18ThroughPureCall(e.factVal))
 		return ok && id.String() == cfg.Prev
 	}
 	loop := c18FindFileLoop(g, ops, vdir)
@@ -505,6 +573,12 @@ func c18CheckWriterCore(p *Prog, r *Report, fn *ssa.Function, name string, cfg *
 				st |= 1 << bPrevSet
 			case 2:
 				st &^= 1 << bPrevSet
+			}
+			switch flagKind[n] {
+			case 1:
+				st |= 1 << bFlagSet
+			case 2:
+				st &^= 1 << bFlagSet
 			}
 			return st
 		},
@@ -706,7 +780,7 @@ func c18CheckWriterCore(p *Prog, r *Report, fn *ssa.Function, name string, cfg *
 				"on every successful path prev was nil or was removed",
 				"a successful return (at "+at+") is reachable without removing the previous version directory although prev was set: old versions accumulate")
 		}
-		check(bit(st, bPrevSet), R.Prev, name+" return nil => prev = this version directory",
+		check(bit(st, bPrevSet) && (flagField == "" || bit(st, bFlagSet)), R.Prev, name+" return nil => prev = this version directory",
 			"prev is set to the directory published by this call on every successful path",
 			"a successful return (at "+at+") leaves prev not pointing at the directory just published: the next Write deletes the wrong directory or never deletes this one")
 	}
@@ -1041,6 +1115,17 @@ func c18CheckLeftovers(g *c18Graph, r *Report, name string, cfg *c18Cfg, ops []*
 			r.OK(R.Leftover, construct, at, "the path is removed on every path before it is created")
 			continue
 		}
+		// a removal whose path the check cannot read may be the removal that is looked for
+		unreadable := ""
+		for _, q := range ops {
+			if q.Kind == c18Remove && c18Classify(q.Path, cfg.Frozen) == c18Varying && !cfg.isPrev(q.Path) {
+				unreadable = q.desc()
+			}
+		}
+		if unreadable != "" {
+			r.Undecide("%s: %s is created on a call-invariant path; whether it is removed first cannot be told because the path of %s is not understood", name, o.desc(), unreadable)
+			continue
+		}
 		sa := c18StaleAnalysis(g, o, ops, bits)
 		blocked := o.Fn + " fails with EEXIST when " + want + " already exists, the path is the same on every call and nothing removes it first: a process that dies after this step and before the step that consumes the path (rename) leaves it behind, and every later Write — also from a fresh instance — returns \"file exists\" forever"
 		switch {
@@ -1105,7 +1190,7 @@ func c18CheckDeferred(g *c18Graph, r *Report, name string, cfg *c18Cfg, deferred
 		verdict, where := "ok", ""
 		for _, n := range g.nodes {
 			rd, ok := n.in.(*ssa.RunDefers)
-			if !ok || n.fr != d.Fr || !instrReaches(d.Defer, rd) {
+			if !ok || n.fr.rootF() != d.Fr || !instrReaches(d.Defer, rd) {
 				continue
 			}
 			// the return node that follows on this path
@@ -1206,4 +1291,110 @@ func c18DirOf(t *c18T) *c18T {
 		}
 	}
 	return nil
+}
+
+// c18StateTypes: the state type and the named struct types nested in it by value.
+func c18StateTypes(p *Prog, tkey string) map[string]bool {
+	out := map[string]bool{tkey: true}
+	for _, pkg := range p.Pkgs {
+		if pkg.Types == nil {
+			continue
+		}
+		i := strings.LastIndex(tkey, ".")
+		if i < 0 || pkg.PkgPath != tkey[:i] {
+			continue
+		}
+		tn, ok := pkg.Types.Scope().Lookup(tkey[i+1:]).(*types.TypeName)
+		if !ok {
+			continue
+		}
+		var visit func(t types.Type, depth int)
+		visit = func(t types.Type, depth int) {
+			st, ok := t.Underlying().(*types.Struct)
+			if !ok || depth > 3 {
+				return
+			}
+			for k := 0; k < st.NumFields(); k++ {
+				ft := types.Unalias(st.Field(k).Type())
+				if n, ok := ft.(*types.Named); ok {
+					if _, isStruct := n.Underlying().(*types.Struct); isStruct {
+						key := namedKey(n)
+						if !out[key] && n.Obj().Pkg() == tn.Pkg() {
+							out[key] = true
+							visit(n, depth+1)
+						}
+					}
+				}
+			}
+		}
+		visit(tn.Type(), 0)
+	}
+	return out
+}
+
+// c18FieldIsString: the field (FieldID.String() form) of the state type or a nested struct has type string.
+func c18FieldIsString(p *Prog, tkey, field string) bool {
+	if tkey == "" {
+		return false
+	}
+	i := strings.LastIndex(tkey, ".")
+	for _, pkg := range p.Pkgs {
+		if pkg.Types == nil || i < 0 || pkg.PkgPath != tkey[:i] {
+			continue
+		}
+		for key := range c18StateTypes(p, tkey) {
+			j := strings.LastIndex(key, ".")
+			tn, ok := pkg.Types.Scope().Lookup(key[j+1:]).(*types.TypeName)
+			if !ok {
+				continue
+			}
+			st, ok := tn.Type().Underlying().(*types.Struct)
+			if !ok {
+				continue
+			}
+			for k := 0; k < st.NumFields(); k++ {
+				if (FieldID{key, st.Field(k).Name()}).String() == field {
+					b, ok := st.Field(k).Type().Underlying().(*types.Basic)
+					return ok && b.Kind() == types.String
+				}
+			}
+		}
+	}
+	return false
+}
+
+// c18ThroughPureCall: a value obtained from a same-module accessor with a single return
+// (`func (d *Dir) previous() (string, bool) { return d.prev, d.hasPrev }`) is the value returned there.
+func c18ThroughPureCall(v ssa.Value) ssa.Value {
+	for i := 0; i < 4; i++ {
+		var call *ssa.Call
+		idx := 0
+		switch x := v.(type) {
+		case *ssa.Call:
+			call = x
+		case *ssa.Extract:
+			call, _ = x.Tuple.(*ssa.Call)
+			idx = x.Index
+		}
+		if call == nil {
+			return v
+		}
+		f := staticCallee(call)
+		if f == nil || len(f.Blocks) == 0 || f.Pkg == nil || call.Parent().Pkg != f.Pkg {
+			return v
+		}
+		var ret *ssa.Return
+		n := 0
+		allInstrs(f, func(in ssa.Instruction) {
+			if r, ok := in.(*ssa.Return); ok {
+				ret = r
+				n++
+			}
+		})
+		if n != 1 || idx >= len(ret.Results) {
+			return v
+		}
+		v = c18Root(ret.Results[idx])
+	}
+	return v
 }
